@@ -14,8 +14,7 @@ import itertools
 
 FUNCTIONAL = False
 LEVEL_TEXT = ("Lean theorems about step : Stream -> Op -> Stream x Result transcribed from bitstream.py/bits.py/dtypes.py/bitarray_.py: "
-              "0 <= pos <= len is preserved by every modelled operation and by every history (induction) outside four recorded "
-              "regions; a successful read/readlist/readto returns the interpretation of exactly bits[pos, pos+k) and advances by k; a "
+              "0 <= pos <= len is preserved by every modelled operation and by every history (induction); a successful read/readlist/readto returns the interpretation of exactly bits[pos, pos+k) and advances by k; a "
               "failed read leaves the state unchanged and a short fixed-length read or truncated code is ReadError; peek/peeklist = "
               "read/readlist with pos restored; readlist = the successive single reads; append/+= end, prepend/clear 0, length-changing "
               "del/setitem/replace 0, insert/overwrite just after the written bits, find/rfind/readto at the match; every new stream "
@@ -24,9 +23,9 @@ LEVEL_TEXT = ("Lean theorems about step : Stream -> Op -> Stream x Result transc
 LEVEL_NOTE = ("Trusted: Lean kernel (+propext, Classical.choice, Quot.sound); searching is modelled by the list of occurrences (C07 proves the "
               "algorithms), contents of non-length-changing mutators by list functions (C03/C16); value decoding restricted to "
               "uint/int/bin/hex/bits/bytes/bool/pad/ue/se/uie/sie and integer counts; the transcription is tied to the code by the "
-              "differential run only. Four genuine deviations of the pinned tree are recorded findings (known_findings.d/C06.json).")
+              "differential run only. Four genuine deviations found while building the check were fixed in /repo (known_findings.d/C06.json, status fixed).")
 TECHNIQUE = "Lean 4 proof (invariant by induction over operation histories, case analysis per operation) + history correspondence"
-NOT_YET_PROVED = []
+NOT_YET_PROVED = ["readlist_eq_reads for lists that contain a stretchy (length-less) token: proved only for lists without one (the stretchy arithmetic max(remaining - bits_after, 0) is transcribed and corresponded, not characterised by a theorem)"]
 
 STREAMS = ("ConstBitStream", "BitStream")
 VAR = ("ue", "se", "uie", "sie")
@@ -252,15 +251,15 @@ def ref_step(st, opf):
     if op in ("prepend", "prependself"):
         nb = (bits if op.endswith("self") else unwire(f[1])) + bits
         return (nb, [("None", 0)])
-    if op in ("insert", "insertself", "overwrite"):
-        b = bits if op == "insertself" else unwire(f[1])
+    if op in ("insert", "insertself", "overwrite", "overwriteself"):
+        b = bits if op.endswith("self") else unwire(f[1])
         p = _oi(f[-1])
         if not b:
             return same("None")                                   # nothing written: nothing moves
         p = pos if p is None else (p + n if p < 0 else p)
         if not 0 <= p <= n:
             return same("err")
-        nb = bits[:p] + b + (bits[p:] if op != "overwrite" else bits[p + len(b):])
+        nb = bits[:p] + b + (bits[p:] if op.startswith("insert") else bits[p + len(b):])
         return (nb, [("None", p + len(b))])
     if op in ("setslice", "setidx", "setidxint", "delslice", "delidx"):
         l = list(bits)
@@ -290,9 +289,10 @@ def ref_step(st, opf):
             old, new, a, b, c, al = unwire(f[1]), unwire(f[2]), _oi(f[3]), _oi(f[4]), _oi(f[5]), f[6] == "1"
         else:
             old, new, a, b, c, al = unwire(f[1]), bits, _oi(f[2]), _oi(f[3]), _oi(f[4]), f[5] == "1"
-        if c == 0:
-            return same("0")
         v = _vslice(n, a, b)
+        if c == 0:
+            # nothing to do; whether bad arguments are still rejected is not this property's business
+            return same("0") if old and v is not None else (bits, [("err", pos), ("0", pos)])
         if not old or v is None:
             return same("err")
         pts = []
@@ -569,9 +569,9 @@ def _do(s, opf, extra, operands):
     if op in ("insert", "overwrite"):
         a = () if f[2] == "None" else (int(f[2]),)
         return _fmt(getattr(s, op)(B(f[1]), *a))
-    if op == "insertself":
+    if op in ("insertself", "overwriteself"):
         a = () if f[1] == "None" else (int(f[1]),)
-        return _fmt(s.insert(s, *a))
+        return _fmt(getattr(s, op[:-4])(s, *a))
     if op == "setslice":
         s[_oi(f[1]):_oi(f[2])] = B(f[3]); return "None"
     if op == "setidx":
@@ -712,6 +712,13 @@ def _err(e):
 
 def execute(line):
     f = line.split(SEP)
+    if f[1] == "init":
+        cls, bits, pos = CLASSES[f[2]], unwire(f[3]), int(f[4])
+        try:
+            s = cls(bin=bits, pos=pos) if bits else cls(pos=pos)
+        except Exception as e:                                   # noqa: BLE001
+            return ("err" if err_name(e) in DOCUMENTED else err_name(e)), {}
+        return f"ok {s.pos}", {"len": len(s), "bin": s.bin}
     assert f[1] == "hist", line
     cls, bits, pos, route, ops = CLASSES[f[2]], unwire(f[3]), int(f[4]), f[5], f[6:]
     extra = {}
@@ -780,6 +787,16 @@ def first_failure(line, out):
 
 
 def oracle(line, out, extra):
+    f = line.split(SEP)
+    if f[1] == "init":
+        n, p = len(unwire(f[3])), int(f[4])
+        q = p + n if p < 0 else p
+        exp = f"ok {q}" if 0 <= q <= n else "err"
+        if out != exp:
+            return f"{f[2]}(bin={f[3]}, pos={p}): expected {exp}, got {out}"
+        if out.startswith("ok") and extra["bin"] != unwire(f[3]):
+            return f"constructor changed the contents: {extra['bin']}"
+        return None
     r = first_failure(line, out)
     if r:
         return r[1]
@@ -790,40 +807,9 @@ def oracle(line, out, extra):
     return None
 
 
-# ---- regions of the recorded findings: which family the first deviant step (on the reference trace) belongs to
-def _family(st, opf):
-    bits, pos, mut = st
-    f = opf.split(" ")
-    op = f[0]
-    if op in ("readlist", "readlistS", "peeklist", "peeklistS"):
-        toks = [] if f[1] == "-" else f[1].split(",")
-        if any(t.lstrip("-").isdigit() and int(t) < 0 for t in toks):
-            return "readlist_negative_count"
-        if any(t.split(":")[0] == "bool" for t in toks):
-            return "single_length_short_read"
-    if op in ("read", "peek") and f[1].split(":")[0] == "bool" and pos >= len(bits):
-        return "single_length_short_read"
-    if op == "setprop" and f[3] != "ERR" and len(unwire(f[3])) < pos:
-        return "property_assignment_shrinks"
-    if op in ("andself", "orself") and not mut and pos != 0:
-        return "const_and_or_self"
-    return None
-
-
-def _first_family(line):
-    f = line.split(SEP)
-    st = (unwire(f[3]), int(f[4]), f[2] == "BitStream")
-    for opf in f[6:]:
-        fam = _family(st, opf)
-        if fam:
-            return fam
-        nbits, allowed = ref_step(st, opf)
-        st = (nbits, allowed[0][1], st[2])
-    return None
-
-
-REGIONS = {name: (lambda line, name=name: _first_family(line) == name)
-           for name in ("readlist_negative_count", "single_length_short_read", "property_assignment_shrinks", "const_and_or_self")}
+# All four deviations found while building this check (readlist_negative_count, single_length_short_read,
+# property_assignment_shrinks, const_and_or_self) were fixed in /repo; no region is exempt any more.
+REGIONS = {}
 
 
 def nontrivial(line):
@@ -1010,6 +996,8 @@ def _rand_op(rng, st):
         p = _opt_idx(rng, n, 0.5)
         return rng.choice([f"insert {wire(b)} {p}", f"insert {wire(b)} {p}", f"insertself {p}"] if n <= 70 else [f"insert {wire(b)} {p}"])
     if r < 0.46:
+        if rng.random() < 0.12 and n <= 70:
+            return f"overwriteself {_opt_idx(rng, n, 0.4)}"
         return f"overwrite {wire(b)} {_opt_idx(rng, n, 0.5)}"
     if r < 0.56:
         x = rng.random()
@@ -1091,6 +1079,12 @@ def gen(rng, tier):
                 for tok in VAR:
                     yield _case(cls, b, pos, "attr", [f"readlist {tok}", f"read {tok}"])
                     yield _case(cls, b, pos, "ctor", [f"read {tok}", f"readlistS {tok},{tok}"])
+    # 1b. the constructor's pos argument, in and out of range, negative = from the end
+    for n in range(0, (17 if big else 10)):
+        b = rand_bits(rng, n)
+        for p in range(-n - 3, n + 4):
+            for cls in STREAMS:
+                yield SEP.join(["C06", "init", cls, wire(b), str(p)])
     # 2. seeking: every length x every position
     for n in range(0, (41 if big else 26)):
         b = rand_bits(rng, n)
@@ -1103,7 +1097,7 @@ def gen(rng, tier):
         for pos in sorted({0, n // 2, n}):
             b = rand_bits(rng, n)
             for opf in ["append 101", "iadd 1", "appendself", "iaddself", "prepend 01", "prependself", "insert 11 None", "insert 11 0", f"insert 1 {n}",
-                        "insertself None", "overwrite 101 None", "overwrite 1 0", f"overwrite 11 {n}", "setslice 0 1 -", "setslice 0 1 1", "setslice 0 0 10",
+                        "insertself None", "overwriteself None", "overwriteself 0", "overwrite 101 None", "overwrite 1 0", f"overwrite 11 {n}", "setslice 0 1 -", "setslice 0 1 1", "setslice 0 0 10",
                         "setidx 0 11", "setidx 0 1", "setidxint 0 1", "delslice 0 1 None", "delslice 0 0 None", "delidx 0", "delidx -1",
                         f"replace {wire(b[:2])} 111 None None None 0", f"replace {wire(b[:2])} {wire(b[:2])} None None None 0", "clear",
                         "setprop hex f 1111", "setprop bin 0b -", "setprop uint8 3 00000011", f"setprop bin {b or '0b'} {wire(b)}", "setuint 0",
